@@ -23,6 +23,9 @@ var solvers = []solverSpec{
 	{"cvc5-1.0.3", func(t int, f string) []string { return []string{"cvc5", fmt.Sprintf("--tlimit=%d", t*1000), f} }},
 }
 
+var retriesLeft = 4
+var retryMu sync.Mutex // retries run one at a time so that they do not compete with each other
+
 type solveResult struct {
 	status string // unsat sat unknown timeout error
 	solver string
@@ -160,20 +163,41 @@ func solveOne(vc *VC, o *Obligation, file string, cfg solveConfig) {
 		return
 	}
 	// race the three solvers; the first definite answer (unsat or sat) wins and the others are stopped
-	var results []solveResult
-	ctx, cancel := context.WithCancel(context.Background())
-	ch := make(chan solveResult, len(solvers))
-	for _, sp := range solvers {
-		go func(sp solverSpec) { ch <- runSolverCtx(ctx, sp, cfg.slowT, file) }(sp)
+	race := func(timeoutS int) []solveResult {
+		var results []solveResult
+		ctx, cancel := context.WithCancel(context.Background())
+		ch := make(chan solveResult, len(solvers))
+		for _, sp := range solvers {
+			go func(sp solverSpec) { ch <- runSolverCtx(ctx, sp, timeoutS, file) }(sp)
+		}
+		for range solvers {
+			r := <-ch
+			results = append(results, r)
+			if (r.status == "unsat" || r.status == "sat") && !cfg.allAgree {
+				break
+			}
+		}
+		cancel()
+		return results
 	}
-	for range solvers {
-		r := <-ch
-		results = append(results, r)
-		if (r.status == "unsat" || r.status == "sat") && !cfg.allAgree {
-			break
+	results := race(cfg.slowT)
+	definite := false
+	for _, r := range results {
+		if r.status == "unsat" || r.status == "sat" {
+			definite = true
 		}
 	}
-	cancel()
+	if !definite {
+		// no solver gave a definite answer (possibly a loaded machine): one more round with twice the time
+		// before the obligation is reported as failed. At most four such retries per run: a tree on which many
+		// obligations fail is reported without them.
+		retryMu.Lock()
+		if retriesLeft > 0 {
+			retriesLeft--
+			results = append(results, race(2*cfg.slowT)...)
+		}
+		retryMu.Unlock()
+	}
 	total := 0.0
 	sawSat, sawUnsat := false, false
 	var by string
